@@ -96,9 +96,14 @@ def run(ctx):
             for ns in (True, False):
                 atoms = {f"'.' in {nmv}": dotted, nsv: ns}
                 chain = [s for s in sn.node.body if isinstance(s, (ast.If, ast.Return))]
-                out = guards.run_chain(chain, {}, atoms)
+                out = guards.run_chain(chain, {}, atoms, effects=[])
                 want = f"({nmv}.rsplit('.', 1)[0], {nmv})" if dotted else (f"({nsv}, f'{{{nsv}}}.{{{nmv}}}')" if ns else f"('', {nmv})")
                 got = norm(out[1]) if out[0] == "return" else out[0]
+                if out[0] == "return" and isinstance(out[1], ast.Tuple) and len(out[1].elts) == 2 and isinstance(out[1].elts[0], ast.Name):
+                    # `ns, _ = name.rsplit('.', 1)` + `return (ns, name)`: element 0 of the split, by reaching definitions
+                    srcs = value_sources(a, sn, out[1].elts[0])
+                    if srcs and all(k == "unpack" and v[1] == 0 for k, v in srcs):
+                        got = f"({norm(srcs[0][1][0])}[0], {norm(out[1].elts[1])})"
                 if out[0] != "return":
                     ctx.unrecognised("C11.R1", f"schema_name: dotted={dotted} namespace={ns}", sn.where(), f"decision chain not evaluable ({got})")
                 else:
